@@ -362,6 +362,25 @@ impl Prop for C03 {
                 },
             ));
         }
+        f.push(Family::new(
+            "many-names",
+            Mode::Full,
+            "programs that bind k distinct names (k in 1..=24, Greek letter words) to 1..k, re-bind every third one to ten times its value, and then use all of them in one sum, in one product of the first five, and the last-bound one alone: the number of variables of a session does not matter",
+            move |ch| {
+                const NAMES: [&str; 24] = ["alpha", "beta", "gamma", "delta", "epsilon", "zeta", "eta", "theta", "iota", "kappa", "lambda", "mu", "nu", "xi", "omicron", "pi", "rho", "sigma", "tau", "upsilon", "phi", "chi", "psi", "omega"];
+                let k = 1 + ch.choose(24);
+                let mut lines: Vec<String> = (0..k).map(|i| format!("{} = {}", NAMES[i], i + 1)).collect();
+                for i in (0..k).step_by(3) {
+                    lines.push(format!("{} = {} * 10", NAMES[i], NAMES[i]));
+                }
+                match ch.choose(3) {
+                    0 => lines.push((0..k).map(|i| NAMES[i]).collect::<Vec<_>>().join(" + ")),
+                    1 => lines.push((0..k.min(5)).map(|i| NAMES[i]).collect::<Vec<_>>().join(" * ")),
+                    _ => lines.push(NAMES[k - 1].to_string()),
+                }
+                Some(Case { lines, bfs: None })
+            },
+        ));
         if tier == Tier::Thorough {
             f.push(Family::new(
                 "number-programs-deep",
